@@ -199,6 +199,8 @@ class CSetOp(object):
             if len(ks) == 2:
                 return self.sg(ks[0], ks[1])
             c = self.ev(e.kids[0], env)
+            if isinstance(c, tuple) and c and c[0] == "undet":
+                return ("depends on " + c[1],)
             return self.ev(e.kids[1] if self.truth(c) else e.kids[2], env)
         if k == "BinaryOperator":
             op = e.v
@@ -233,6 +235,11 @@ class CSetOp(object):
                         return int(n if op == "==" else not n)
                     if a[0] in ("type",) and b[0] == "type":
                         return int((a[1] == b[1]) == (op == "=="))
+                    if "type?" in (a[0], b[0]) and {a[0], b[0]} <= {"type?", "type"}:
+                        # the concrete type of an *operand*: not a function of
+                        # the table's atoms (a set operand may be a Set or a
+                        # TreeSet, a mapping a Bucket or a BTree)
+                        return ("undet", "the concrete type of an operand (%s)" % text(e)[:50])
                 if isinstance(a, int) and isinstance(b, int):
                     return int({"==": a == b, "!=": a != b, "<": a < b, ">": a > b,
                                 "<=": a <= b, ">=": a >= b}[op])
@@ -468,7 +475,7 @@ def _ret_canon(ret, act, rkind):
         return ("ret", None, ret[1])
     if isinstance(ret, tuple) and ret and ret[0] == "tuple":
         w, o = ret[1], ret[2]
-        w = show(p_const(w)) if isinstance(w, int) else show(w)
+        w = show(p_const(w)) if isinstance(w, int) else (w[0] if isinstance(w, tuple) else show(w))
         if isinstance(o, Result):
             return ("end", o.kind, w)
         if isinstance(o, tuple) and o[0] == "obj":
@@ -831,7 +838,7 @@ def _py_ret_canon(ret, act):
         return ("ret", None, ret[1])
     if isinstance(ret, tuple) and ret and ret[0] == "tuple":
         w, o = ret[1], ret[2]
-        w = show(p_const(w)) if isinstance(w, int) else show(w)
+        w = show(p_const(w)) if isinstance(w, int) else (w[0] if isinstance(w, tuple) else show(w))
         if isinstance(o, Result):
             return ("end", o.kind, w)
         if isinstance(o, tuple) and o[0] == "obj":
